@@ -44,6 +44,10 @@ EXPLANATION = (
     "to one of its members and the requested resource is not well-founded; an invocation that completes has only "
     "well-founded requests; a raising factory is the only other failure; every await-free section of a resolution ends "
     "after finitely many micro-steps on every graph (lexicographic measure: scoped cache, stack, dependencies left). "
+    "An invocation created by a finished invocation -- asyncio.create_task copies the creator's context, _held_scopes "
+    "binding included -- is an ordinary invocation (C22_created_by_finished_is_fresh), so the theorems cover "
+    "resolve-then-spawn task trees; the runs exercise them (invocations created in a copy of a finished invocation's "
+    "context, child workflows run from a step with injected resources, callers that resolve before run()). "
     "Factories carry the value they return (object, None, 0, '', [], False): a factory returns at most once per "
     "invocation (C22_created_once_per_invocation) and no transition reads the value (C22_value_independent: the runs "
     "of a graph and of the same graph with all values replaced by ordinary objects are equal), so a stored falsy "
@@ -70,6 +74,10 @@ ASSUMPTIONS = [
     "the code's try/finally and `async with` handle it and the workflow-level monitors run over such executions",
     "one descriptor per resource name; ResourceManager.set() by hand and _ResourceConfig (no dependencies, always "
     "cached) are outside the model",
+    "tasks are created by invocations that have finished resolving (their scope is closed); a task created while its "
+    "creator is still inside a resolution scope inherits the creator's _held_scopes binding and joins that scope "
+    "without the lock -- partial() and _Resource.call create no tasks (source shape); user factories that fan out "
+    "resolutions to child tasks are outside the model and the generators",
     "one event loop at a time per manager (the repaired code re-creates its lock when the running loop changes)",
     "termination of every await-free section is a theorem (C22_resolution_terminates); absence of deadlock between "
     "invocations (a released lock is handed on, every suspended invocation can be resumed) is only exercised by the "
@@ -305,6 +313,16 @@ def parse_events(events: list[str]) -> list[tuple]:
     return out
 
 
+def ctag(info: dict) -> str:
+    """Classifying facts of the execution, part of every signature that depends on the schedule."""
+    tag = "[concurrent]" if info.get("overlapped", False) else "[sequential]"
+    if any(rec.get("parent") is not None for rec in info["tasks"]) or info.get("ancestor_resolved"):
+        # some invocation was created by a task that had resolved resources before (it started in a copy of
+        # that task's context: a child workflow run from a step with injected resources, a warmed-up caller)
+        tag += "[created-by-a-resolver]"
+    return tag
+
+
 def monitor(g: list[dict], info: dict, all_opened: bool, final_state: str | None) -> list[tuple[str, str]]:
     """Returns (signature, what) pairs."""
     res: list[tuple[str, str]] = []
@@ -312,11 +330,7 @@ def monitor(g: list[dict], info: dict, all_opened: bool, final_state: str | None
     wf = wellfounded(g)
     n = len(g)
     overlapped = info.get("overlapped", False)
-    tag = "[concurrent]" if overlapped else "[sequential]"
-    if any(rec.get("parent") is not None for rec in info["tasks"]) or info.get("ancestor_resolved"):
-        # classifying fact of the input: some invocation was created by a task that had resolved resources
-        # before (it started in a copy of that task's context)
-        tag += "[created-by-a-resolver]"
+    tag = ctag(info)
 
     made: dict[int, list[tuple[int, int]]] = {}  # rid -> [(task, serial)]
     serial_rid: dict[int, int] = {}
@@ -609,11 +623,11 @@ def run_wf_cases(cases: list[dict], cfg: dict, out: Outcome) -> None:
             out.violations.append(Violation(sig, what, {"kind": "workflow", **case}))
         if info["result"] == "stuck":
             out.violations.append(Violation(
-                "C22/stuck" + ("[concurrent]" if info["overlapped"] else "[sequential]"),
+                "C22/stuck" + ctag(info),
                 "workflow never finished: no invocation can run and no gate is left to open", {"kind": "workflow", **case}))
         if info["result"].startswith("error:") and all(wellfounded(g)) and not any(r["f"] for r in g):
             out.violations.append(Violation(
-                "C22/workflow_failed" + ("[concurrent]" if info["overlapped"] else "[sequential]"),
+                "C22/workflow_failed" + ctag(info),
                 f"workflow over an acyclic graph of non-raising factories failed: {info['result']}", {"kind": "workflow", **case}))
 
 
@@ -673,8 +687,10 @@ def run(env: Env) -> Outcome:
     out = Outcome()
     out.rule = ("random dependency graphs (1-6 resources; dag/diamond/cycle/self-cycle/dense; cached, async, raising mixes; "
                 "factories returning an object or, in half of the graphs, None/0/''/[]/False) "
-                "x adaptive schedules of 1-4 invocations (real partial() or bare get) opening gates at quiescent points; "
-                "real workflows with concurrent worker steps; non-trivial = at least two invocations or a dependency edge; "
+                "x adaptive schedules of 1-6 invocations (real partial() or bare get) opening gates at quiescent points, "
+                "in 30% of the cases as a task tree (invocations created by finished invocations, in a copy of their "
+                "context, nested); real workflows with concurrent worker steps, 40% run from a step with an injected "
+                "resource of 1-2 enclosing workflows, 25% after the caller resolved resources through the manager; non-trivial = at least two invocations or a dependency edge; "
                 "distinct by (graph, op list)")
     cfg = tree_cfg()
     out.notes.append(f"tree configuration: exclusive scopes={cfg['excl']} partial skips empty={cfg['skip']}")
@@ -687,7 +703,7 @@ def run(env: Env) -> Outcome:
     run_cases([c for c in corpus if "workers" not in c], cfg, out, "corpus")
     run_wf_cases([c for c in corpus if "workers" in c], cfg, out)
     rng = random.Random(env.rng.randrange(1 << 30))
-    n1, n2 = env.budget(1500, 45000), env.budget(200, 6000)
+    n1, n2 = env.budget(1400, 42000), env.budget(200, 6000)
     for lo in range(0, n1, 500):
         run_cases([gen_case(rng, excl=cfg["excl"]) for _ in range(min(500, n1 - lo))], cfg, out, "direct")
     for lo in range(0, n2, 500):
